@@ -92,7 +92,12 @@ func c10Compare(c *core.Ctx, src []byte, v5, v7, tag string) bool {
 
 func c10Case(c *core.Ctx, idx int) {
 	r := core.NewRand(c.P.Seed, "C10", idx)
-	g := gen.NewG(r.Split("prog"), gen.Opts{Fam: 5, Common: true, MaxDepth: r.Range(2, 5), MaxStmts: 7})
+	opts := gen.Opts{Fam: 5, Common: true, MaxDepth: r.Range(2, 5), MaxStmts: 7}
+	if idx%40 == 11 {
+		// a long program: the grammars draw tokens and positions from 1024-entry blocks at different rates
+		opts.MaxStmts, opts.MaxDepth = r.Range(80, 400), r.Range(2, 3)
+	}
+	g := gen.NewG(r.Split("prog"), opts)
 	root := g.Program()
 	toks := root.Tokens()
 	kinds := map[string]int{}
@@ -113,6 +118,10 @@ func c10Case(c *core.Ctx, idx int) {
 		c.Cover("version_pair", v5+"/"+v7)
 		c.Cover("layouts", gen.LayoutNames[m])
 	}
+	c.Max("max_tokens_in_a_compared_program", int64(len(toks)))
+	if len(toks) > 1024 {
+		c.Add("programs_with_more_than_1024_tokens", 1)
+	}
 	if ok {
 		c.NonTrivial([]byte(root.Canon()))
 		if c.WantSample() && len(toks) > 12 && len(toks) < 50 {
@@ -124,7 +133,7 @@ func c10Case(c *core.Ctx, idx int) {
 func init() {
 	core.Register(&core.Check{
 		ID:   "C10",
-		Rule: "cases = known-finding witnesses ++ generated common-subset programs (G1 with Common: shared syntax only, no uniform-variable-syntax regroupings) in the canonical and one PRNG layout, each parsed under a PRNG 5.x and a PRNG 7.x version; non-trivial = both parses error-free and fingerprints compared; distinct by expected structure",
+		Rule: "cases = known-finding witnesses ++ generated common-subset programs (G1 with Common: shared syntax only, no uniform-variable-syntax regroupings) in the canonical and one PRNG layout (every 40th program has up to 400 top-level statements: several pool blocks), each parsed under a PRNG 5.x and a PRNG 7.x version; non-trivial = both parses error-free and fingerprints compared; distinct by expected structure",
 		Assumptions: []string{
 			"the generator's Common mode defines the shared subset: no PHP 7-only syntax, no $$a[..], no member access/call/dimension after a static member, no call results as callee, no class-reference chains after new, no goto (recorded divergences)",
 		},
